@@ -160,6 +160,9 @@ fn main() {
                                     continue;
                                 }
                                 cases += 1;
+                                if cases % 700 == 1 {
+                                    writeln!(out, "{}", json!({"sample": {"case": case, "withdraw": withdraw}})).unwrap();
+                                }
                                 let msg = if withdraw {
                                     bgp::Message::Update(bgp::Update::Unreach { family, entries: entries.clone() })
                                 } else {
